@@ -178,7 +178,7 @@ func canStartSignedNumberAfter(r rune) bool {
 	switch r {
 	case 0, ' ', '\t', '\n', '\r',
 		'(', '[', '{', ',', ';', ':',
-		'+', '-', '*', '/', '<', '>', '=', '!', '&', '|':
+		'+', '-', '*', '/', '<', '>', '=', '!', '&', '|', '~':
 		return true
 	default:
 		return false
